@@ -31,6 +31,9 @@ class _Rec:
 
         class Commander:
             def send_hover_setpoint(self, vx, vy, yawrate, z):
+                if rec.slow_link and rec.ex._choose(2, 'link.slow') == 1:
+                    # the link is busy: the call returns when the packet has left, 0.5 s later (environment answer)
+                    vsched.S.sleep(0.5, 'link.busy')
                 rec.log('hover', (vx, vy, yawrate, z))
 
             def send_stop_setpoint(self):
@@ -72,6 +75,7 @@ class _Rec:
         self.high_level_commander = Hl()
         self.param = Param()
         self.cmds = []
+        self.slow_link = False
 
     def log(self, kind, args):
         self.cmds.append((self.ex.s.elapsed(), kind, args, cfh._thread_name()))
@@ -150,9 +154,12 @@ def exec_c17(cfg, devs):
     p = Partial()
     ex = cfh.Exec(devs, None, time_limit=200.0)
     rec = _Rec(ex)
+    rec.slow_link = bool(cfg.get('slow_link'))
     info = {'marks': [], 'positions': []}
     prog = cfg['prog']
     exc_at = cfg.get('exc_at')
+    if cfg['kind'] == 'mc2':
+        return _exec_two_commanders(p, cfg, devs, ex, rec)
 
     def body(obj, prims):
         for i, name in enumerate(prog):
@@ -265,6 +272,59 @@ class _View:
         self.cmds = cmds
 
 
+def _exec_two_commanders(p, cfg, devs, ex, rec_a):
+    """Two MotionCommanders on two Crazyflies fly at the same time (a swarm script): commander A runs the program, commander B
+    takes off, hovers and lands; each stream is judged on its own."""
+    from cflib.positioning.motion_commander import MotionCommander
+    from cflib.positioning import motion_commander as mcm
+    rec_b = _Rec(ex)
+    infos = {'A': {'marks': [], 'positions': []}, 'B': {'marks': [], 'positions': []}}
+    recs = {'A': rec_a, 'B': rec_b}
+
+    def fly(who, prog):
+        rec, info = recs[who], infos[who]
+        mc = MotionCommander(rec)
+        try:
+            with mc:
+                info['flying_from'] = len(rec.cmds)
+                for i, name in enumerate(prog):
+                    info['marks'].append(('begin', i, name, len(rec.cmds), ex.s.elapsed()))
+                    call = MC_PRIMS[name][0]
+                    if call is None:
+                        ex.s.sleep(MC_PRIMS[name][2], 'user.wait')
+                    else:
+                        call(mc)
+                    info['marks'].append(('end', i, name, len(rec.cmds), ex.s.elapsed()))
+            info['result'] = 'returned'
+        except Exception as e:  # noqa
+            info['result'] = 'raised %s: %s' % (type(e).__name__, e)
+        info['end_index'] = len(rec.cmds)
+
+    def main():
+        s = ex.s
+        s.spawn(None, lambda: fly('B', ('wait0.3', 'wait0.3', 'wait0.3')), name='userB')
+        fly('A', cfg['prog'])
+        s.sleep(3.0, 'after')
+
+    orig_set = mcm._SetPointThread.set_vel_setpoint
+
+    def logged_set(self, vx, vy, vz, yaw):
+        owner = [r for r in (rec_a, rec_b) if any(v is r for v in vars(self).values())]
+        (owner[0] if len(owner) == 1 else rec_a).log('setvel', (vx, vy, vz, yaw))
+        return orig_set(self, vx, vy, vz, yaw)
+    mcm._SetPointThread.set_vel_setpoint = logged_set
+    try:
+        ex.run(main)
+    finally:
+        mcm._SetPointThread.set_vel_setpoint = orig_set
+    first = True
+    for who, prog in (('A', cfg['prog']), ('B', ('wait0.3', 'wait0.3', 'wait0.3'))):
+        sub = dict(cfg, prog=prog, exc_at=None, form='with')
+        _judge_mc(p, sub, devs, ex, recs[who], infos[who], tag=':commander_%s_of_2' % who, count_case=first)
+        first = False
+    return p, ex.ch.ns, ex.ch.labels
+
+
 def _common(p, cfg, devs, ex, rec, info, tag='', count_case=True):
     rp = {'cfg': cfg, 'devs': list(devs)}
     cname = cfg['name']
@@ -314,6 +374,9 @@ def _judge_mc(p, cfg, devs, ex, rec, info, tag='', start=None, count_case=True):
     # (2) streaming period and height integration (reference = the velocity commands given to the setpoint thread)
     setv = [c for c in rec.cmds if c[1] == 'setvel']
     hov = [c for c in cmds if c[1] == 'hover']
+    if any(l == 'link.slow' for (_, a, l) in ex.ch.taken):
+        hov = []            # the environment delayed a setpoint: period and content of the stream are not judged
+        setv = []
     if setv and not hov and rec.cmds and rec.cmds[-1][0] - setv[0][0] > UPDATE_PERIOD + 1e-9:
         viol('stream:no_setpoints', '%s: velocity commands from t=%.3f to t=%.3f and not one hover setpoint was streamed' % (
             prog_desc, setv[0][0], rec.cmds[-1][0]))
@@ -492,6 +555,13 @@ def configs(quick):
                 for exc_at in excs:
                     out.append({'name': '%s:%s:%s:exc%s' % (kind, form, '+'.join(prog) or '-', exc_at), 'kind': kind, 'form': form,
                                 'prog': prog, 'exc_at': exc_at})
+    # a link that is busy for 0.5 s inside one setpoint transmission (environment answer at every hover setpoint)
+    for prog in _programs(MC_PRIMS, 1):
+        out.append({'name': 'mc:with:%s:slow_link' % ('+'.join(prog) or '-'), 'kind': 'mc', 'form': 'with', 'prog': prog,
+                    'exc_at': None, 'slow_link': True})
+    # two commanders in the air at the same time
+    for prog in _programs(MC_PRIMS, 1):
+        out.append({'name': 'mc2:%s' % ('+'.join(prog) or '-'), 'kind': 'mc2', 'form': 'with', 'prog': prog, 'exc_at': None})
     return out
 
 
